@@ -137,7 +137,7 @@ class Watch:
                 if eq.kind != "obj" or eq.value != (True, True, False, True):
                     ctx.violation("operand_no_longer_equal_to_fresh_copy", f"{where}: {label} {S.show(sp)[:300]}: (==, ==, !=, hash==) against a fresh copy = {eq.value!r} {eq.brief()}")
                 for p in self.h.points[:2]:
-                    if not C.varfree_in_scope(sp) or R.NORMAL.evaluate(sp, p).oos:
+                    if not C.tree_in_scope(sp) or R.NORMAL.evaluate(sp, p).oos:
                         continue
                     import smoothmath as sm
                     a = M.call(o.at, sm.Point(**p))
@@ -184,7 +184,7 @@ def check_case(ctx, case):
         w.add_new()
         nops = len(hist["ops"])
         for idx, op in enumerate(hist["ops"]):
-            if not h.scope_ok(op, R, C.varfree_in_scope):
+            if not h.scope_ok(op, R, C.tree_in_scope):
                 ctx.count("ops_out_of_scope")
                 h.skip(op)
                 continue
